@@ -13,7 +13,10 @@ pub struct Setup {
     pub sig: Vec<Vec<isize>>,
     pub kin: Kin,
     pub sampler: DynSampler,
-    pub tv: TableView,
+    /// table view from the serialisation; None if the serialised layout no longer exposes it
+    pub tv: Option<TableView>,
+    /// normalisation used for weight bounds: the table's cached_factor, else the oracle's value
+    pub norm: f64,
     pub sec: Sector,
     pub sym: Symanzik,
     pub loops: usize,
@@ -34,7 +37,7 @@ impl Setup {
     }
     pub fn assemble(g: GraphSpec, name: String, sig: Vec<Vec<isize>>, kin: Kin) -> Option<Setup> {
         let sampler = DynSampler::build(&g, &sig).ok()?;
-        let tv = TableView::from_json(&sampler.json())?;
+        let tv = TableView::from_json(&sampler.json());
         let go = GO::new(&g);
         let sec = Sector::new(&go)?;
         let sym = Symanzik::new(&go, &kin.ext_q(), &kin.masses_q());
@@ -47,7 +50,14 @@ impl Setup {
             e.dedup();
             e.len() == 1
         };
-        Some(Setup { g, name, sig, kin, sampler, tv, sec, sym, loops, omega, dim, single_external })
+        let norm = match &tv {
+            Some(t) => t.cached_factor,
+            None => {
+                let jfull = qf(&sec.j[(1usize << g.ne()) - 1]);
+                crate::checks::c04::normalisation_oracle(&g, jfull, omega, loops)
+            }
+        };
+        Some(Setup { g, name, sig, kin, sampler, tv, norm, sec, sym, loops, omega, dim, single_external })
     }
     pub fn random(rng: &mut Rng, o: &GraphOpts, mix: usize, max_offset: i64) -> Option<Setup> {
         let (g, name) = gen::accepted_graph(rng, o)?;
